@@ -111,7 +111,7 @@ def minv(m):
     def fn(*idx):
         b = list(idx[:nb])
         i, j = idx[nb], idx[nb + 1]
-        vi, vj = T.fresh("mi"), T.fresh("mj")
+        vi, vj = T.bounded_var(n, "mi"), T.bounded_var(n, "mj")
         body = P(m.fn(*(b + [vi, vj])))
         lam = T.close_raw("lam", vi, None, T.close_raw("lam", vj, None, body))
         return T.app("minv", n, lam, i, j)
